@@ -30,6 +30,8 @@ def shards(tier, seed):
     for part in range(4):
         out.append({"id": "vpd-any-%d" % part, "fmt": None, "vpd_any": True, "part": part, "parts": 4, "small": tier == "quick"})
     out.append({"id": "retention", "fmt": None, "retention": True, "n": 300 if tier == "quick" else 3000, "small": tier == "quick"})
+    for t in ("sgio", "iscsi"):
+        out.append({"id": "hostile-" + t, "fmt": None, "hostile": t, "reps": 1 if tier == "quick" else 12, "small": tier == "quick"})
     return out
 
 
@@ -118,7 +120,137 @@ def garbage(rng, small):
             yield "run_then_tail", bytes([fill]) * n + tail
 
 
+def run_hostile(shard, ctx):
+    """the whole initiator (facade + transport) against a device that gives the same hostile answer to every command, for ever:
+    a reset / not-ready / busy report that never goes away, data that always announces more than was asked for.  Every facade
+    call and the attach must come back (returning or raising) within a step budget, a handful of commands and without buffers
+    whose size the device dictates"""
+    import sys
+
+    from vmon.sim import install
+
+    install.install_fakes()
+    import pyscsi.pyscsi.scsi_command as sc
+    import pyscsi.pyscsi.scsi_enum_command as E
+    from pyscsi.pyscsi.scsi import SCSI
+
+    from vmon import harness
+    from vmon.mon.steps import BudgetExceeded, StepMonitor
+    from vmon.props.c13 import required_args, response_for
+    from vmon.spec import cdb as S, dataout as DO, sense as SR
+
+    t = shard["hostile"]
+    mod = sys.modules["sgio" if t == "sgio" else "iscsi"]
+    rng = ctx.rng()
+    sm = StepMonitor()
+    state = {"n": 0, "requests": []}
+    real_ba = bytearray
+
+    def guarded(n=0):
+        if isinstance(n, int):
+            state["requests"].append(n)
+            if n > (64 << 20):
+                raise MemoryError("allocation guard: %d bytes" % n)
+        return real_ba(n)
+
+    def sense_handler(status, sense):
+        def h(ev):
+            state["n"] += 1
+            if state["n"] > 64:
+                raise BudgetExceeded()  # stop a retry loop that the step budget has not stopped yet
+            return status, sense
+        return h
+
+    def data_handler(kind, resp):
+        def h(ev):
+            state["n"] += 1
+            if state["n"] > 64:
+                raise BudgetExceeded()
+            buf = ev.get("eff_in") if "eff_in" in ev else ev.get("in")
+            if buf is not None and len(buf):
+                n = len(buf)
+                if kind == "all_ff":
+                    buf[:] = b"\xff" * n
+                elif kind in ("claims_alloc", "claims_double", "claims_one_more"):
+                    claim = {"claims_alloc": n, "claims_double": 2 * n, "claims_one_more": n + 8}[kind]
+                    head = claim.to_bytes(4, "big")
+                    buf[: min(4, n)] = head[: min(4, n)]
+                elif resp:
+                    k = min(n, len(resp))
+                    buf[:k] = resp[:k]
+            return 0, None
+        return h
+
+    behaviours = [("unit_attention_29_fixed", lambda c, a: sense_handler(2, SR.build(0x70, 0, 6, 0x29, 0x00, 18))),
+                  ("unit_attention_29_descriptor", lambda c, a: sense_handler(2, SR.build(0x72, 0, 6, 0x29, 0x01, 8))),
+                  ("not_ready_becoming_ready", lambda c, a: sense_handler(2, SR.build(0x70, 0, 2, 0x04, 0x01, 18))),
+                  ("aborted_command", lambda c, a: sense_handler(2, SR.build(0x70, 0, 0xB, 0x47, 0x03, 18))),
+                  ("recovered_error", lambda c, a: sense_handler(2, SR.build(0x70, 0, 1, 0x17, 0x01, 18))),
+                  ("busy", lambda c, a: sense_handler(0x08, None)), ("task_set_full", lambda c, a: sense_handler(0x28, None)),
+                  ("all_ff", lambda c, a: data_handler("all_ff", None)), ("claims_alloc", lambda c, a: data_handler("claims_alloc", None)),
+                  ("claims_double", lambda c, a: data_handler("claims_double", None)), ("claims_one_more", lambda c, a: data_handler("claims_one_more", None)),
+                  ("more_descriptors_than_fit", lambda c, a: data_handler("resp", response_for(c, a, rng, big=True) if c is not None else b"\x00\x00\x06\x02\xff\x00\x00\x02"))]
+    sc.bytearray = guarded
+    try:
+        for rep in range(shard["reps"]):
+            for c in [None] + [x for x in S.COMMANDS.values() if x.facade]:
+                for bname, mk in behaviours:
+                    if t == "sgio":
+                        dev = install.sgio_device()[0]
+                    else:
+                        dev = install.iscsi_device()
+                    a = dict(required_args(c, rng)) if c is not None else {}
+                    if c is not None:
+                        dev.opcodes = getattr(E, rng.choice(c.sets))
+                        full = dict(harness.defaults(c))
+                        full.update(a)
+                    else:
+                        full = {}
+                    mod.handler = mk(c, full)
+                    state["n"] = 0
+                    del state["requests"][:]
+                    label = "attach" if c is None else c.facade
+                    wit = {"transport": t, "call": label, "device_behaviour": bname, "args": a}
+
+                    def call():
+                        if c is None:
+                            SCSI(dev)
+                        else:
+                            s = harness.make_facade(dev, 512)
+                            harness.facade_call(c, s, DO.fresh(a) if c.custom else dict(a))
+
+                    asked = 65536 + sum(v for v in full.values() if isinstance(v, int) and 0 < v < (1 << 24))
+                    out, steps = sm.run(call, BASE + SLOPE * 64 + 40 * asked)
+                    ctx.case(("hostile", t, label, bname, rep), True, sample=dict(wit, outcome=out, commands=state["n"], steps=steps) if ctx.want_sample() else None)
+                    ctx.count("hostile_device_calls")
+                    ctx.count("hostile_outcome_" + out.split(":")[0])
+                    ctx.maximum("hostile_commands_per_call", state["n"], wit)
+                    if out in ("budget", "opaque") or state["n"] > 64:
+                        ctx.fail("C11:facade.%s.never_comes_back.%s" % (label, bname), "%s over %s did not come back within its budget against a device answering %s to every command (%d commands sent, %d steps)"
+                                 % (label, t, bname, state["n"], steps), wit)
+                    elif state["n"] > 8:
+                        ctx.fail("C11:facade.%s.commands_without_bound.%s" % (label, bname), "%s over %s sent %d commands for one call against a device answering %s" % (label, t, state["n"], bname), wit)
+                    big = [n for n in state["requests"] if n > max(1 << 20, 16 * asked)]
+                    if big:
+                        ctx.fail("C11:facade.%s.allocation_dictated_by_device.%s" % (label, bname), "%s over %s asked for a buffer of %d bytes because of what the device answered (the caller asked for at most %d)"
+                                 % (label, t, max(big), asked), wit)
+                    try:
+                        dev.close()
+                    except Exception:  # noqa: BLE001
+                        pass
+                    mod.log = []
+    finally:
+        try:
+            del sc.bytearray
+        except AttributeError:
+            pass
+        mod.handler = None
+        sm.close()
+
+
 def run(shard, ctx):
+    if shard.get("hostile"):
+        return run_hostile(shard, ctx)
     from vmon.mon.steps import StepMonitor
     from vmon.spec import datain as D
 
@@ -423,6 +555,8 @@ def finalize(merged, tier):
     c = merged["counters"]
     if c.get("monitored_calls", 0) == 0:
         merged["inconclusive"].append("step monitor never ran a decoder")
+    if c.get("hostile_device_calls", 0) < 400:
+        merged["inconclusive"].append("hostile-device phase did not run (%d calls)" % c.get("hostile_device_calls", 0))
     if c.get("retention_measurements", 0) < 20 or len(merged["sets"].get("vpd_pages_driven", [])) < 256:
         merged["inconclusive"].append("retention / all-VPD-pages phases incomplete (%s measurements, %s pages)" % (c.get("retention_measurements", 0), len(merged["sets"].get("vpd_pages_driven", []))))
     bf = merged["maxima"].get("budget_fraction")
